@@ -40,6 +40,21 @@ def main() -> int:
             print(ln)
         if res['bad']:
             run.error(f"checker self-test: {res['bad']} corpus entries did not behave as frozen (see SELFTEST lines)")
+        # the interpreter's model of Python itself (selftest/semantics.py): every fixture function gives the result Python gives
+        import contextlib
+        import io
+        import semantics  # type: ignore[import-not-found]
+        buf = io.StringIO()
+        with contextlib.redirect_stdout(buf):
+            sem_bad = semantics.main()
+        lines = buf.getvalue().splitlines()
+        run.extra['python_semantics_fixture'] = {'functions': sum(1 for ln in lines if ln.startswith('SEMANTICS ') and (ln.endswith(': ok') or 'DIFFERENT' in ln)),
+                                                  'different': [ln for ln in lines if 'DIFFERENT' in ln][:5]}
+        for ln in lines:
+            if 'DIFFERENT' in ln or 'total' in ln:
+                print(ln)
+        if sem_bad:
+            run.error('interpreter self-test: the abstract interpreter disagrees with Python on its own fixture (see SEMANTICS lines)')
     return run.finish()
 
 
